@@ -14,6 +14,18 @@ from .c08 import REGISTRY_ATN, UP, DOWN
 from . import c15  # noqa: DAG.do lives there
 
 
+def bd_fn(ex, E):
+    """ghost function of one graph: BD(X, Y, Z) = the answer of is_valid_backdoor_adjustment_set(X, Y, Z) (which its contract defines
+    by the d-separation formula; the formula depends on Z only through its members, so BD is well defined)"""
+    store = ex.__dict__.setdefault("_bd_fns", [])
+    for E0, f in store:
+        if E0.eq(E):
+            return f
+    f = z3.Function(f"backdoor_valid!{len(store)}", Atom, Atom, set_sort(Atom), B)
+    store.append((E, f))
+    return f
+
+
 class IsValidBackdoor(Contract):
     file = "pgmpy/inference/CausalInference.py"
     qual = "CausalInference.is_valid_backdoor_adjustment_set"
@@ -41,6 +53,10 @@ class IsValidBackdoor(Contract):
     def snapshot(self, ex, st, args):
         return graph_snapshot(args["self"].fields["model"])
 
+    def make_result(self, ex, st, args):
+        # the answer as a term over the arguments (so that it can be abstracted over inside comprehensions)
+        return Scalar(bd_fn(ex, args["self"].fields["model"].fields["@E"])(args["X"].z, args["Y"].z, self.Zset(args)))
+
     def post(self, ex, st, args, old, result):
         if not isinstance(result, Scalar):
             return z3.BoolVal(False)
@@ -51,8 +67,189 @@ class IsValidBackdoor(Contract):
         th = REGISTRY_ATN.theory(ex, {"observed": obs}, old["@E"])
         p = fresh("p", Atom)
         dconn = lambda s: z3.And(z3.Not(th.Z[Y]), z3.Or(th.R(s, Y, UP), th.R(s, Y, DOWN)), z3.Not(old["latents"][Y]))
-        return z3.And(result.z == z3.ForAll([p], z3.Implies(old["@E"][p, X], z3.Not(dconn(p)))),
-                      graph_unchanged(args["self"].fields["model"], old))
+        # the answer is a function of (X, Y, Z) for the given graph: BD names it, so that callers can speak about *all* candidate sets
+        return {"criterion": result.z == z3.ForAll([p], z3.Implies(old["@E"][p, X], z3.Not(dconn(p)))),
+                "def.BD": result.z == bd_fn(ex, old["@E"])(X, Y, Zs),
+                "model-untouched": graph_unchanged(args["self"].fields["model"], old)}
 
 
 register(IsValidBackdoor())
+
+
+class GetAllBackdoorSets(Contract):
+    """get_all_backdoor_adjustment_sets(X, Y): with P = observed variables - {X, Y} - descendants(X) and BD the validity test above,
+      * frozenset() when the empty set is valid,
+      * otherwise a family of subsets of P that are all valid (soundness) such that every valid subset of P contains one of them
+        (nothing valid is missed); ValueError exactly when no subset of P is valid.
+    The engine's model is not modified."""
+    file = "pgmpy/inference/CausalInference.py"
+    qual = "CausalInference.get_all_backdoor_adjustment_sets"
+
+    def variants(self, ex):
+        g = new_graph("BayesianNetwork", "m")
+        this = Obj("CausalInference", {"model": g, "observed_variables": Coll("frozenset", Atom, z3.Const("observed", set_sort(Atom)))})
+        yield "any", {"self": this, "X": atom("X", "str"), "Y": atom("Y", "str")}, {}
+
+    def pre(self, ex, st, args):
+        g = args["self"].fields["model"]
+        obs = args["self"].fields["observed_variables"].mem
+        x = fresh("x", Atom)
+        return z3.And(wf_graph(g), z3.ForAll([x], z3.Implies(obs[x], N_(g, x))), obs[args["X"].z], obs[args["Y"].z])
+
+    def snapshot(self, ex, st, args):
+        return graph_snapshot(args["self"].fields["model"])
+
+    def P(self, ex, args, old):
+        X, Y = args["X"].z, args["Y"].z
+        obs = args["self"].fields["observed_variables"].mem
+        Pth = ex.lib.theory(ex).path(old["@E"])
+        x = fresh("x", Atom)
+        return z3.Lambda([x], z3.And(obs[x], x != X, x != Y, z3.Not(z3.And(Pth(X, x), x != X))))
+
+    def raises(self, ex, st, args):
+        g = args["self"].fields["model"]
+        X, Y = args["X"].z, args["Y"].z
+        BD = bd_fn(ex, g.fields["@E"])
+        P = self.P(ex, args, {"@E": g.fields["@E"]})
+        S = fresh("S", set_sort(Atom))
+        from vf.pyvc.engine import subset
+        return {"ValueError": z3.Not(z3.Exists([S], z3.And(subset(S, P, Atom), BD(X, Y, S))))}
+
+    def on_raise(self, ex, st, args, old, exc):
+        return graph_unchanged(args["self"].fields["model"], old)
+
+    def post(self, ex, st, args, old, result):
+        from vf.pyvc.engine import subset
+        if not isinstance(result, Coll):
+            return z3.BoolVal(False)
+        SS = set_sort(Atom)
+        X, Y = args["X"].z, args["Y"].z
+        BD, P = bd_fn(ex, old["@E"]), self.P(ex, args, old)
+        mem = result.mem if result.mem is not None else empty_set(SS)
+        M, S = fresh("M", SS), fresh("S", SS)
+        none_needed = BD(X, Y, empty_set(Atom))
+        return {"empty-family-iff-no-adjustment-needed": z3.Implies(none_needed, z3.ForAll([M], z3.Not(mem[M]))),
+                "sound": z3.ForAll([M], z3.Implies(mem[M], z3.And(subset(M, P, Atom), BD(X, Y, M)))),
+                "nothing-valid-missed": z3.Implies(z3.Not(none_needed),
+                                                   z3.ForAll([S], z3.Implies(z3.And(subset(S, P, Atom), BD(X, Y, S)),
+                                                                             z3.Exists([M], z3.And(mem[M], subset(M, S, Atom)))))),
+                "model-untouched": graph_unchanged(args["self"].fields["model"], old)}
+
+    # loop 0: for s in _powerset(possible_adjustment_variables)    (loop 1, the scan of the sets found so far, only emits booleans)
+    def inv0(self, ex, st, args, old, ghost):
+        from vf.pyvc.engine import subset
+        SS = set_sort(Atom)
+        X, Y = args["X"].z, args["Y"].z
+        BD, P = bd_fn(ex, old["@E"]), self.P(ex, args, old)
+        V = st.env["valid_adjustment_sets"]
+        mem = V.mem if V.mem is not None else empty_set(SS)
+        done = ghost["done"]
+        M, S = fresh("M", SS), fresh("S", SS)
+        return z3.And(z3.ForAll([M], z3.Implies(mem[M], z3.And(subset(M, P, Atom), BD(X, Y, M), done[M]))),
+                      z3.ForAll([S], z3.Implies(z3.And(done[S], BD(X, Y, S)), z3.Exists([M], z3.And(mem[M], subset(M, S, Atom))))),
+                      z3.ForAll([S], z3.Implies(done[S], subset(S, P, Atom))),
+                      graph_unchanged(args["self"].fields["model"], old))
+
+    invariants = property(lambda self: {0: self.inv0})
+
+
+register(GetAllBackdoorSets())
+
+
+def fd_fn(ex, E):
+    """ghost function of one graph: FD(X, Y, Z) = the answer of is_valid_frontdoor_adjustment_set(X, Y, Z)"""
+    store = ex.__dict__.setdefault("_fd_fns", [])
+    for E0, f in store:
+        if E0.eq(E):
+            return f
+    f = z3.Function(f"frontdoor_valid!{len(store)}", Atom, Atom, set_sort(Atom), B)
+    store.append((E, f))
+    return f
+
+
+class IsValidFrontdoor(Contract):
+    """is_valid_frontdoor_adjustment_set(X, Y, Z) on an acyclic model, X != Y:
+       True  <=>  there is a directed path X ~> Y,  Z intercepts every directed path X ~> Y (Y not reachable from X without Z),
+                  no back-door path X..z for z in Z  (BD(X, z, {})),  and X blocks every back-door path z..Y  (BD(z, Y, {X}))."""
+    file = "pgmpy/inference/CausalInference.py"
+    qual = "CausalInference.is_valid_frontdoor_adjustment_set"
+
+    def variants(self, ex):
+        for zl, Z in (("list", atom_list("Z", "list")), ("frozenset", atom_list("Z", "frozenset")), ("tuple", atom_list("Z", "tuple")),
+                      ("None", NONE), ("single", atom("z1", "str"))):
+            g = new_graph("BayesianNetwork", "m")
+            yield f"Z={zl}", {"self": Obj("CausalInference", {"model": g}), "X": atom("X", "str"), "Y": atom("Y", "str"), "Z": Z}, {}
+
+    def pre(self, ex, st, args):
+        g = args["self"].fields["model"]
+        x = fresh("x", Atom)
+        return z3.And(wf_graph(g), ex.lib.theory(ex).acyclic(g.fields["@E"]), N_(g, args["X"].z), N_(g, args["Y"].z), args["X"].z != args["Y"].z,
+                      z3.ForAll([x], z3.Implies(IsValidBackdoor.Zset(args)[x], N_(g, x))))
+
+    def snapshot(self, ex, st, args):
+        return graph_snapshot(args["self"].fields["model"])
+
+    def make_result(self, ex, st, args):
+        # a term over the arguments (see IsValidBackdoor.make_result): FD names the answer for the given graph
+        return Scalar(fd_fn(ex, args["self"].fields["model"].fields["@E"])(args["X"].z, args["Y"].z, IsValidBackdoor.Zset(args)))
+
+    def post(self, ex, st, args, old, result):
+        from vf.pyvc.lib import RelSort
+        if not isinstance(result, Scalar):
+            return z3.BoolVal(False)
+        X, Y, E = args["X"].z, args["Y"].z, old["@E"]
+        Z = IsValidBackdoor.Zset(args)
+        th = ex.lib.theory(ex)
+        a, b, z = fresh("a", Atom), fresh("b", Atom), fresh("z", Atom)
+        # ghost lemmas: the assumed simple-path theorems, for W = Z and W = {} (existence of a directed path)
+        st.assume(th.sp_avoid(E, X, Y, Z))
+        st.assume(th.sp_avoid(E, X, Y, empty_set(Atom)))
+        EZ = th.avoid_rel(E, Z)   # ghost: the graph without the nodes of Z
+        BD = bd_fn(ex, E)
+        spec = z3.And(th.path(E)(X, Y), z3.Not(z3.And(z3.Not(Z[X]), th.path(EZ)(X, Y))),
+                      z3.ForAll([z], z3.Implies(Z[z], BD(X, z, empty_set(Atom)))),
+                      z3.ForAll([z], z3.Implies(Z[z], BD(z, Y, z3.Store(empty_set(Atom), X, True)))))
+        return {"criterion": result.z == spec, "def.FD": result.z == fd_fn(ex, E)(X, Y, Z),
+                "model-untouched": graph_unchanged(args["self"].fields["model"], old)}
+
+    # loop 0: for zz in Z  (step 3) - emits booleans only
+
+
+register(IsValidFrontdoor())
+
+
+class GetAllFrontdoorSets(Contract):
+    """get_all_frontdoor_adjustment_sets(X, Y) = exactly the subsets S of observed - {X, Y} with FD(X, Y, S) (the validity test above)."""
+    file = "pgmpy/inference/CausalInference.py"
+    qual = "CausalInference.get_all_frontdoor_adjustment_sets"
+
+    def variants(self, ex):
+        g = new_graph("BayesianNetwork", "m")
+        this = Obj("CausalInference", {"model": g, "observed_variables": Coll("frozenset", Atom, z3.Const("observed", set_sort(Atom)))})
+        yield "any", {"self": this, "X": atom("X", "str"), "Y": atom("Y", "str")}, {}
+
+    def pre(self, ex, st, args):
+        g = args["self"].fields["model"]
+        obs = args["self"].fields["observed_variables"].mem
+        x = fresh("x", Atom)
+        return z3.And(wf_graph(g), ex.lib.theory(ex).acyclic(g.fields["@E"]), z3.ForAll([x], z3.Implies(obs[x], N_(g, x))),
+                      obs[args["X"].z], obs[args["Y"].z], args["X"].z != args["Y"].z)
+
+    def snapshot(self, ex, st, args):
+        return graph_snapshot(args["self"].fields["model"])
+
+    def post(self, ex, st, args, old, result):
+        from vf.pyvc.engine import subset
+        if not isinstance(result, Coll):
+            return z3.BoolVal(False)
+        SS = set_sort(Atom)
+        X, Y = args["X"].z, args["Y"].z
+        obs = args["self"].fields["observed_variables"].mem
+        x, S = fresh("x", Atom), fresh("S", SS)
+        P = z3.Lambda([x], z3.And(obs[x], x != X, x != Y))
+        mem = result.mem if result.mem is not None else empty_set(SS)
+        return {"exactly-the-valid-subsets": z3.ForAll([S], mem[S] == z3.And(subset(S, P, Atom), fd_fn(ex, old["@E"])(X, Y, S))),
+                "model-untouched": graph_unchanged(args["self"].fields["model"], old)}
+
+
+register(GetAllFrontdoorSets())
